@@ -91,6 +91,7 @@ class World:
         self.leafgen = leafgen         # optional adversarial leaf generator (C03)
         self.garbage, self.garbage_p = garbage, garbage_p  # hostile value at any position
         self.returns = []              # (response path, value returned by an explicit resolver)
+        self.schema_hook_calls = []    # schema-level pass-through hooks (@vtpass) entered for this request
         self.dir_calls = []            # (directive, path, canon(directive_args), args) recorded by @vtrec
         self.p_null_nonnull = 0.0      # probability of null data at a non-null position (C01: "any resolver data")
         self.mutate_args = False       # resolvers scribble over the argument containers they were given (C15)
@@ -431,6 +432,16 @@ def make_exception(kind, key):
 
     class UserError(TartifletteError):
         pass
+    if len(key) % 3 == 0:
+        # an application exception that is not derived from the library class but provides the `coerce_value` the engine
+        # looks for (upstream's issue209 shape): no `path`, `locations` or `extensions` attribute of its own
+        class Coercible(Exception):
+            def coerce_value(self, *_args, path=None, locations=None, **_kwargs):
+                out = {"message": "user message at %s" % key, "path": path,
+                       "locations": [loc.collect_value() for loc in locations or []],
+                       "extensions": {"code": "E_INJECTED", "key": key}}
+                return out
+        return Coercible("developer message")
     if len(key) % 2:
         # the user-facing text given separately from the developer message
         return UserError("developer message", user_message="user message at %s" % key, extensions={"code": "E_INJECTED", "key": key})
